@@ -209,8 +209,22 @@ func (j *jsonWriter) Struct(tag int, f func(writer)) {
 // TextString implements writer.
 func (j *jsonWriter) TextString(tag int, str string) {
 	j.encodeAppend(TypeTextString, tag, func(b []byte) []byte {
-		return strconv.AppendQuote(b, str)
+		return appendJSONString(b, str)
 	})
+}
+
+// appendJSONString appends str as a JSON string literal. Unlike strconv.AppendQuote,
+// which produces Go syntax (\x01, \a, \v, \U0001f600) that no JSON parser accepts,
+// it only uses the escapes defined by RFC 8259.
+func appendJSONString(b []byte, str string) []byte {
+	buf := new(bytes.Buffer)
+	enc := json.NewEncoder(buf)
+	enc.SetEscapeHTML(false)
+	if err := enc.Encode(str); err != nil {
+		panic(err)
+	}
+	// Encode appends a newline
+	return append(b, buf.Bytes()[:buf.Len()-1]...)
 }
 
 type jsonReader struct {
